@@ -74,8 +74,8 @@ def self_call(name, fn):
     return hook
 
 
-DINT = {"data_type_name": "DINT", "tag_type": "atomic"}
-DWORD = {"data_type_name": "DWORD", "tag_type": "atomic"}
+DINT = {"data_type_name": "DINT", "tag_type": "atomic", "data_type": "DINT"}
+DWORD = {"data_type_name": "DWORD", "tag_type": "atomic", "data_type": "DWORD"}
 
 
 def _parsed(i, user_tag, plc_tag=None, bit=None, bool_elements=None, info=DINT, elements=1, error=None, **kw):
@@ -319,6 +319,8 @@ def d2_12(ctx):
         ("bit 0 cleared", _wparsed(2, "d1.0", "d1", value=False, bit=0), ("RMW", "SEQ", "d1", -1, "UID", [(0, False)], [2]), None),
         ("BOOL array slice is an ordinary write", _wparsed(4, "f[32]{40}", "f[1]", value=[True] * 40, bit=0, bool_elements=40, info=DWORD, elements=2), ("WT", "SEQ", "f[1]", 2, 4, "UID", b"<f[1]>", True), None),
         ("value too large for the connection", _wparsed(4, "big{400}", "big", value=[0] * 400, elements=400), ("WTF", "from", ("WT", "SEQ", "big", 400, 4, "UID", b"<big>", True), "SEQ", ()), None),
+        ("message + value exactly the connection size", _wparsed(4, "fit", value=1), ("WT", "SEQ", "fit", 1, 4, "UID", b"<fit>", True), None),
+        ("message + value one byte over the connection size", _wparsed(4, "over", value=1), ("WTF", "from", ("WT", "SEQ", "over", 1, 4, "UID", b"<over>", True), "SEQ", ()), None),
         ("request that failed to parse", _wparsed(4, "bad", error="Tag doesn't exist - bad"), None, "Tag doesn't exist - bad"),
         ("bit outside the type", _wparsed(4, "d1.40", "d1", value=True, bit=40), None, "Invalid Tag Request"),
         ("type the Write Tag service refuses", _wparsed(4, "odd", value=1), None, "Invalid Tag Request"),
@@ -326,7 +328,7 @@ def d2_12(ctx):
     for label, parsed, want, err in cases:
         log = []
         p = dict(parsed)
-        kind, res = run_function(ctx, lx.module, fn, {"self": _driver(), fn.args.args[1].arg: p}, call_hook=chain(enc, packet_markers(log, sizes={"big": 600}, refuse=("odd",))), deep=False)
+        kind, res = run_function(ctx, lx.module, fn, {"self": _driver(), fn.args.args[1].arg: p}, call_hook=chain(enc, packet_markers(log, sizes={"big": 600, "fit": 495, "over": 495}, refuse=("odd",))), deep=False)
         key = ckey(lx.key + "._write_build_single_request", f"witness:{label}")
         if kind == "unknown":
             ctx.undecided(key, fn, f"_write_build_single_request not foldable on {label}: {res}")
@@ -369,6 +371,16 @@ def d2_12(ctx):
         ctx.check(flat == ["t0", "t1", "t2", "t3"] and all(0 < len(g) <= 2 for g in groups), key, fn, "four 200-byte requests on a 500-byte connection: every request sent once, in order, at most two per packet",
                   f"grouping of four 200-byte requests on a 500-byte connection gives {groups!r}")
 
+    for label, sizes_, want_groups in (("five 245-byte requests on a 500-byte connection", [245] * 5, [[0, 1], [2, 3], [4]]), ("requests of 100, 395 and 100 bytes", [100, 395, 100], [[0], [1], [2]]),
+                                       ("requests of 245, 245, 5 bytes", [245, 245, 5], [[0, 1], [2]])):
+        parsed = {i: _wparsed(i, f"t{i}", value=i) for i in range(len(sizes_))}
+        kind, res = run_function(ctx, lx.module, fn, {"self": _driver(connection_size=500), fn.args.args[1].arg: parsed}, call_hook=chain(enc, packet_markers([], sizes={f"t{i}": n for i, n in enumerate(sizes_)})), deep=False)
+        key = ckey(lx.key + "._write_build_multi_requests", f"witness:grouping:{label}")
+        if kind == "unknown":
+            ctx.undecided(key, fn, f"_write_build_multi_requests not foldable on {label}: {res}")
+            continue
+        groups = [[r.request_id for r in m.requests] for m in res] if kind == "return" and all(isinstance(m, Obj) and m.__dict__.get("kind") == "Multi" for m in res) else res
+        ctx.check(groups == want_groups, key, fn, f"{label}: packets {want_groups} (each packet: overhead + its requests <= connection size)", f"{label}: grouped as {groups!r}; expected {want_groups!r}")
     # --- dispatch
     fn = lx.methods["_write_build_requests"]
     for label, micro, n, want in (("one request", False, 1, "single"), ("several requests", False, 3, "multi"), ("several requests on a Micro800", True, 3, "single"), ("one request on a Micro800", True, 1, "single")):
@@ -422,6 +434,29 @@ def d1_15(ctx):
         flat = [t for g in groups for t in g] if isinstance(groups, list) and all(isinstance(g, list) for g in groups) else None
         ctx.check(flat == [f"t{i}" for i in range(5)] and all(0 < len(g) <= 2 for g in groups), key, fn, "five requests with ~170-byte estimated replies on a 500-byte connection: each requested once, in order, at most two per packet",
                   f"grouping of five requests with ~170-byte replies on a 500-byte connection gives {groups!r}")
+    for label, sizes_, want_groups in (("five requests with 245-byte estimated replies", [223] * 5, [[0, 1], [2, 3], [4]]), ("estimated replies of 100, 395 and 100 bytes", [78, 373, 78], [[0], [1], [2]]),
+                                       ("estimated replies of 239, 239, 239, 239, 22 bytes", [217, 217, 217, 217, 0], [[0, 1], [2, 3], [4]])):
+        parsed = {i: _parsed(i, f"t{i}") for i in range(len(sizes_))}
+        szh = lambda call, env, it, sizes_=sizes_: sizes_[it.ev(call.args[0], env)["request_id"]] if (call_name(call) or "") == "_tag_return_size" else UNKNOWN  # noqa: E731
+        fnm_ = lx.methods["_read_build_multi_requests"]
+        kind, res = run_function(ctx, lx.module, fnm_, {"self": _driver(connection_size=500), fnm_.args.args[1].arg: parsed}, call_hook=chain(szh, packet_markers([])), deep=False)
+        key = ckey(lx.key + "._read_build_multi_requests", f"witness:grouping:{label}")
+        if kind == "unknown":
+            ctx.undecided(key, fnm_, f"_read_build_multi_requests not foldable on {label}: {res}")
+            continue
+        groups = [[r.request_id for r in m.requests] for m in res] if kind == "return" and all(isinstance(m, Obj) and m.__dict__.get("kind") == "Multi" for m in res) else res
+        ctx.check(groups == want_groups, key, fnm_, f"{label}: packets {want_groups} (overhead + estimated replies <= connection size)", f"{label}: grouped as {groups!r}; expected {want_groups!r}")
+    # fragmentation boundary of a single read: estimated reply (element bytes + message) equal to the connection size fits
+    fns_ = lx.methods["_read_build_single_request"]
+    for label, size_, frag in (("estimated reply exactly the connection size", 480, False), ("estimated reply one byte over", 481, True)):
+        szh = lambda call, env, it, size_=size_: size_ if (call_name(call) or "") == "_tag_return_size" else UNKNOWN  # noqa: E731
+        kind, res = run_function(ctx, lx.module, fns_, {"self": _driver(connection_size=500), fns_.args.args[1].arg: dict(_parsed(3, "edge"))}, call_hook=chain(szh, packet_markers([])), deep=False)
+        key = ckey(lx.key + "._read_build_single_request", f"witness:{label}")
+        if kind == "unknown":
+            ctx.undecided(key, fns_, f"_read_build_single_request not foldable on {label}: {res}")
+        else:
+            got = describe(res) if kind == "return" else res
+            ctx.check(kind == "return" and isinstance(got, tuple) and got[0] == ("RTF" if frag else "RT"), key, fns_, f"{label}: {'fragmented' if frag else 'plain'} read", f"{label}: {kind} {got!r}")
     # the first request alone overflows the reply budget of a packet (without needing fragments): it gets its own packet, no
     # empty packet is built and the requests after it are still sent
     over = ctx.folder.module_value(lx.module.name, "MULTISERVICE_READ_OVERHEAD")
@@ -591,9 +626,10 @@ def d4_10(ctx):
 
     fn = lx.methods["_send_write_fragmented"]
     value = bytes(range(250)) * 4  # 1000 bytes
-    for label, conn, overhead, fail_at in (("several segments", 500, 60, None), ("segments of exactly half the value", 560, 60, None), ("second segment fails", 500, 60, 1), ("one segment", 1100, 60, None),
+    BIGUDT = {"data_type_name": "Big", "tag_type": "struct", "data_type": {"name": "Big", "template": {"structure_size": 600, "structure_handle": 1}}}
+    for label, conn, overhead, fail_at in (("several segments", 500, 60, None), ("elements larger than a segment", 501, 60, None), ("segments of exactly half the value", 560, 60, None), ("second segment fails", 500, 60, 1), ("one segment", 1100, 60, None),
                                            ("last segment of one byte", 393, 60, None), ("value exactly one segment", 1060, 60, None)):
-        w0 = Obj(kind="WTF", tag="big", elements=250, request_id=3, error=None, value=value, message=bytes(overhead) + value, built=False, type_="write", tag_info=DINT, seq="S0")
+        w0 = Obj(kind="WTF", tag="big", elements=250, request_id=3, error=None, value=value, message=bytes(overhead) + value, built=False, type_="write", tag_info=BIGUDT if conn == 501 else DINT, seq="S0")
         seg = conn - overhead
         sent, replies, log = [], [], []
 
